@@ -11,13 +11,30 @@ func init() {
 	Register(&Property{
 		ID: "C36",
 		Decides: "(R36.1) precedence in rule selection: the rule sets are consulted in the order client id, net, node, suffrage, default map, built-in default; a later set is consulted only on the not-found (or not-configured) path of every earlier one; each answer carries the found set's own rule, checksum and label; the node and suffrage sets are consulted only for a request that names a node; " +
-			"(R36.2) enforcement: an address keeps its limiter while it is used (every request refreshes its last-access time; shrink removes only addresses not accessed since the expiry); limiter and no-limit flag are updated together; Allow is x/time/rate's Limiter.Allow of the limiter the RateLimiter holds, or the no-limit flag when it holds none; the held limiter is built from exactly the (limit, burst) given, no-limit is set only for an infinite limit, and Rule builds / updates the RateLimiter from the selected rule's Limit and Burst; (R36.3) the cached limiter: the cache key covers the client id that rule selection reads, and a cached limiter of kind net/node/suffrage is handed back without re-selection only on a path that excluded every higher-precedence set (set not configured, or the request lacks what that set matches on) — violated today, known findings.",
+			"(R36.2) enforcement: an address keeps its limiter while it is used (every request refreshes its last-access time; shrink removes only addresses not accessed since the expiry); limiter and no-limit flag are updated together; Allow is x/time/rate's Limiter.Allow of the limiter the RateLimiter holds, or the no-limit flag when it holds none; the held limiter is built from exactly the (limit, burst) given, no-limit is set only for an infinite limit, and Rule builds / updates the RateLimiter from the selected rule's Limit and Burst; (R36.3) the cached limiter: the cache key covers the client id that rule selection reads, and a cached limiter of kind net/node/suffrage is handed back without re-selection only on a path that excluded every higher-precedence set (set not configured, or the request lacks what that set matches on) — violated today, known findings. A limiter selected by a client-id rule is kept only for a request that carries a client id.",
 		NotDecided: "the window bound itself (x/time/rate); rule matching inside each set.",
 		Run:        runC36,
 	})
 }
 
 func runC36(c *Ctx) {
+	// a limiter selected by a client-id rule is kept only for a request that carries a client id: a request
+	// without one is judged by the net/node/default rules
+	c.Rule("R36.3", "MustPass")
+	if fn := c.Need("launch.(*RateLimiterRules).Rule"); fn != nil {
+		n := 0
+		for _, r := range Returns(fn) {
+			if c.D(RetVal(r, 0)) != "l" {
+				continue
+			}
+			if !allOK(c.MustPass(fn, nil, []ssa.Instruction{r}, GCmp("l.Type()", "==", "\"clientid\""))) {
+				continue
+			}
+			n++
+			c.MP(fn, "a client-id limiter is kept only for a request with a client id", []ssa.Instruction{r}, 1, GCmp("hint.ClientID", "!=", "\"\""))
+		}
+		c.floors["R36.3 shortcuts keeping a client-id limiter"] = [2]int{0, n}
+	}
 	// R36.1 --------------------------------------------------------------------------------------
 	c.Rule("R36.1", "Ordering")
 	if fn := c.Need("launch.(*RateLimiterRules).rule"); fn != nil {
